@@ -43,7 +43,9 @@ FILLER_FILE = ["int f%d = %d;", "static long g%d = %d;", "int h%d(void) { return
                "extern int x%d;", "char s%d[] = \"str%d\";"]
 FILLER_BLOCK = ["int l%d = %d;", "l_acc += %d + %d;", "if (l_acc > %d) l_acc -= %d;", "{ int n%d = %d; l_acc += n%d; }"[:0] or "while (l_acc > 100000 + %d) l_acc -= %d;", ";"]
 # names with prefix relations among each other and with the presumed name of the input itself ("<stdin>")
-NAMES = ["a.c", "dir/b.c", "x_y-z.h", "/abs/p.c", "f1.i", "../up.c", "n.0", "a", "a.c.in", "dir/b", "dir", "<stdin", "<stdin>x", "<", "f1.i", "f1", "x_y-z.h.h"]
+NAMES = ["a.c", "dir/b.c", "x_y-z.h", "/abs/p.c", "f1.i", "../up.c", "n.0", "a", "a.c.in", "dir/b", "dir", "<stdin", "<stdin>x", "<", "f1.i", "f1", "x_y-z.h.h",
+         # characters that are special to printf, and names longer than any fixed buffer
+         "my%20file.c", "50%done.c", "%s%s%n.c", "100%", "%", "a%lu%zu.h", "L" + "o" * 600 + "ng.c", "d" * 300 + "/" + "e" * 300 + ".h"]
 
 
 @st.composite
